@@ -16,11 +16,12 @@ use std::sync::Arc;
 use std::time::{Duration, Instant};
 
 const TIMEOUT_MS: u64 = 300;
-const SLACK_MS: u64 = 2000;
+const SLACK_MS: u64 = 600;
 
 /// Upstream script: `r` refuse; otherwise segments `d<hex>` sent in order, `p<ms>` pauses, ending `e` (close)
 /// or `s` (stay silent with the connection open until the proxy gives up).
-fn run_upstream(l: TcpListener, script: Vec<String>) -> std::thread::JoinHandle<Vec<u8>> {
+fn run_upstream(l: TcpListener, script: Vec<String>) -> std::sync::mpsc::Receiver<Vec<u8>> {
+    let (tx, rx) = std::sync::mpsc::channel();
     std::thread::spawn(move || {
         let mut received = Vec::new();
         l.set_nonblocking(false).ok();
@@ -43,6 +44,7 @@ fn run_upstream(l: TcpListener, script: Vec<String>) -> std::thread::JoinHandle<
                     }
                 }
             }
+            let _ = tx.send(received.clone());
             for step in &script {
                 if let Some(h) = step.strip_prefix('d') {
                     if s.write_all(&unhex(h)).is_err() { break; }
@@ -51,14 +53,16 @@ fn run_upstream(l: TcpListener, script: Vec<String>) -> std::thread::JoinHandle<
                     std::thread::sleep(Duration::from_millis(ms.parse().unwrap_or(0)));
                 } else if step == "s" {
                     // stay silent: keep the socket open well past the proxy's deadline
-                    std::thread::sleep(Duration::from_millis(TIMEOUT_MS + SLACK_MS + 500));
+                    std::thread::sleep(Duration::from_millis(TIMEOUT_MS + SLACK_MS + 900));
                 } else if step == "e" {
                     break;
                 }
             }
+        } else {
+            let _ = tx.send(received);
         }
-        received
-    })
+    });
+    rx
 }
 
 fn parse_request(bytes: &[u8], peer: SocketAddr) -> Option<Request> {
@@ -102,7 +106,7 @@ pub fn exec(f: &[String]) -> Option<String> {
                 }
             });
             let ms = t0.elapsed().as_millis() as u64;
-            let received = match up { Some(h) => h.join().unwrap_or_default(), None => Vec::new() };
+            let received = match up { Some(rx) => rx.recv_timeout(Duration::from_millis(1500)).unwrap_or_default(), None => Vec::new() };
             let r = match &resp { Ok(r) => canon_response(r), Err(_) => "PANIC".into() };
             // proxy_handler uses a fixed 5 s timeout; proxy_request the 300 ms given here
             let limit = if f[5] == "-" { TIMEOUT_MS + SLACK_MS } else { 5000 + SLACK_MS };
